@@ -21,10 +21,11 @@ fn setup(ctx: &mut Ctx) {
     ctx.floor("files:more-than-half-of-prefixes-open", 20);
     ctx.floor("extension:checked", 100);
     ctx.floor("stream:prefixes-evaluated", 2_000);
+    ctx.floor("big-count-file-prefixes", 100);
 }
 
 fn strata(t: Tier) -> Vec<Stratum> {
-    vec![st("generated-all-prefixes", scale(t, 6_400, 64_000, 1)), st("seed-boundary-prefixes", scale(t, 320, 3_200, 0))]
+    vec![st("generated-all-prefixes", scale(t, 6_400, 64_000, 1)), st("seed-boundary-prefixes", scale(t, 320, 3_200, 0)), st("big-count-files", scale(t, 16, 64, 0))]
 }
 
 fn relation_ok(prefix: &Obs, full: &Obs) -> bool {
@@ -168,7 +169,9 @@ fn run(ctx: &mut Ctx, si: usize, case: u64) {
             o.weird_views = ctx.rng.bool();
             let (spec, _) = gen_object(&mut ctx.rng, enc, &o);
             let b = build(&spec, &mut ctx.rng);
-            let lengths: Vec<usize> = if b.bytes.len() <= 4096 {
+            let lengths: Vec<usize> = if ctx.tier == Tier::Miri {
+                (0..24).map(|_| ctx.rng.usize_below(b.bytes.len())).collect()
+            } else if b.bytes.len() <= 4096 {
                 (0..b.bytes.len()).collect()
             } else {
                 let mut v: Vec<usize> = b.fields.iter().flat_map(|f| [f.off.saturating_sub(1), f.off, f.off + f.w]).filter(|l| *l < b.bytes.len()).collect();
@@ -180,6 +183,44 @@ fn run(ctx: &mut Ctx, si: usize, case: u64) {
                 v
             };
             judge_file(ctx, &b.bytes, &format!("generated {}", enc.name()), &lengths, 4);
+        }
+        2 => {
+            // megabyte-sized files with extended numbering: prefixes around every structure boundary
+            use crate::gen::elf::{ObjSpec, Part, Sec};
+            let enc = Enc::ALL[ctx.rng.usize_below(4)];
+            let mut spec = ObjSpec::new(enc);
+            spec.e_type = [1u16, 2, 3, 4][ctx.rng.usize_below(4)];
+            spec.add(Sec::new(b".text", crate::codec::k::SHT_PROGBITS, ctx.rng.bytes(24)));
+            match ctx.rng.below(3) {
+                0 => spec.filler_segments = 0xffff + ctx.rng.usize_below(4),
+                1 => spec.filler_sections = 0xff00 + ctx.rng.usize_below(0x200),
+                _ => {
+                    spec.filler_segments = 0xffff + 2;
+                    spec.filler_sections = 0xff01;
+                }
+            }
+            let orders = [[Part::Phdrs, Part::Bodies, Part::Shdrs], [Part::Shdrs, Part::Bodies, Part::Phdrs], [Part::Bodies, Part::Phdrs, Part::Shdrs], [Part::Bodies, Part::Shdrs, Part::Phdrs]];
+            spec.order = orders[ctx.rng.usize_below(4)];
+            let b = build(&spec, &mut ctx.rng);
+            let len = b.bytes.len();
+            let phsz = crate::codec::size_of(crate::codec::St::Phdr, enc.c64);
+            let shsz = crate::codec::size_of(crate::codec::St::Shdr, enc.c64);
+            let mut v: Vec<usize> = Vec::new();
+            for base in [b.shoff as usize, b.phoff as usize, b.shoff as usize + b.shnum * shsz, b.phoff as usize + b.phnum * phsz, b.phoff as usize + 0xffff * phsz, b.shoff as usize + 0xff00 * shsz, b.shoff as usize + shsz, len] {
+                for d in [-2i64, -1, 0, 1, 2] {
+                    let l = base as i64 + d;
+                    if l >= 0 && (l as usize) < len {
+                        v.push(l as usize);
+                    }
+                }
+            }
+            for _ in 0..6 {
+                v.push(ctx.rng.usize_below(len));
+            }
+            v.sort();
+            v.dedup();
+            ctx.count_n("big-count-file-prefixes", v.len() as u64);
+            judge_file(ctx, &b.bytes, &format!("{} big-count file (e_type {}, shnum {}, phnum {}, {} bytes)", enc.name(), spec.e_type, b.shnum, b.phnum, len), &v, 4);
         }
         _ => {
             let s = seeds();
